@@ -199,17 +199,18 @@ theorem inv_set_mgr {s : AState} {m : Mgr} (h : Inv s) (hm : MgrOK s.confirmed m
 
 /-- what `addTx` does to the pooled transactions: it keeps the first `j` of them (whole) and possibly appends the
     offered one — nothing else; the confirmed chain is untouched -/
-theorem addTx_shape {s : AState} (h : Inv s) (t : Tx) (f : Bool) (ht : TxWF t) :
-    Inv (addTx s t f).1 ∧ (addTx s t f).1.confirmed = s.confirmed ∧
-    ∃ j, (addTx s t f).1.manager.pooled = s.manager.pooled.take j ∨
-         (addTx s t f).1.manager.pooled = s.manager.pooled.take j ++ [t] := by
+theorem addTxWith_shape (canRb : List Blk → Mgr → Tx → Option AddRes) (rivalOf : Mgr → Tx → Option Blk → Option Blk)
+    {s : AState} (h : Inv s) (t : Tx) (f : Bool) (ht : TxWF t) :
+    Inv (addTxWith Mgr.pop canRb rivalOf s t f).1 ∧ (addTxWith Mgr.pop canRb rivalOf s t f).1.confirmed = s.confirmed ∧
+    ∃ j, (addTxWith Mgr.pop canRb rivalOf s t f).1.manager.pooled = s.manager.pooled.take j ∨
+         (addTxWith Mgr.pop canRb rivalOf s t f).1.manager.pooled = s.manager.pooled.take j ++ [t] := by
   have hm := manager_ok h
   have hfull : s.manager.pooled = s.manager.pooled.take s.manager.pooled.length := by simp
   have keep : Inv { s with mgr := some s.manager } ∧ ({ s with mgr := some s.manager } : AState).confirmed = s.confirmed ∧
       ∃ j, ({ s with mgr := some s.manager } : AState).manager.pooled = s.manager.pooled.take j ∨
            ({ s with mgr := some s.manager } : AState).manager.pooled = s.manager.pooled.take j ++ [t] :=
     ⟨inv_set_mgr h hm, rfl, s.manager.pooled.length, Or.inl (by simp [AState.manager])⟩
-  unfold addTx addTxWith
+  unfold addTxWith
   simp only
   split
   · split
@@ -239,6 +240,11 @@ theorem addTx_shape {s : AState} (h : Inv s) (t : Tx) (f : Bool) (ht : TxWF t) :
                   refine ⟨inv_set_mgr h (add_ok hr1 ht ha), rfl, j, Or.inr ?_⟩
                   simp [AState.manager, (add_pooled ha).1, hj]
                 · exact ⟨inv_set_mgr h hr1, rfl, j, Or.inl (by simp [AState.manager, hj])⟩
+
+theorem addTx_shape {s : AState} (h : Inv s) (t : Tx) (f : Bool) (ht : TxWF t) :
+    Inv (addTx s t f).1 ∧ (addTx s t f).1.confirmed = s.confirmed ∧
+    ∃ j, (addTx s t f).1.manager.pooled = s.manager.pooled.take j ∨
+         (addTx s t f).1.manager.pooled = s.manager.pooled.take j ++ [t] := addTxWith_shape _ _ h t f ht
 
 /-! #### rebuild -/
 
@@ -579,6 +585,108 @@ theorem reachable_inv {s : PoolSt} (hr : Reachable s) : ∀ a, Inv (s a) := by
   induction hr with
   | init s h => intro a; exact ⟨(h a).1, (h a).2.1, fun m hm => by rw [(h a).2.2] at hm; cases hm⟩
   | step op _ hop ih => exact step_inv ih op hop
+
+/-! #### competitors -/
+
+theorem flat_take_lt {ts : List Tx} {j : Nat} (hj : j < ts.length) : (flat (ts.take j)).length < (flat ts).length := by
+  have h : flat ts = flat (ts.take j) ++ flat (ts.drop j) := by rw [← flat_append, List.take_append_drop]
+  have hne : ts.drop j ≠ [] := by
+    intro he
+    have := congrArg List.length he
+    simp at this; omega
+  have := flat_length_pos hne
+  rw [h, List.length_append]; omega
+
+/-- the rollback loop reaches the identifier below any pooled transaction and leaves exactly the transactions up to it -/
+theorem rollbackTo_reaches {conf : List Blk} : ∀ (fuel : Nat) (m : Mgr) (j : Nat), MgrOK conf m → j ≤ m.pooled.length →
+    m.pooled.length - j < fuel →
+    ∃ m', rollbackTo Mgr.pop (lastIdFrom (lastId conf) (flat (m.pooled.take j))) fuel m = (m', true) ∧
+      m'.pooled = m.pooled.take j ∧ m'.base = m.base
+  | 0, _, _, _, _, hf => by omega
+  | fuel + 1, m, j, hm, hj, hf => by
+    have hm' := hm
+    obtain ⟨hb, hl, hh, _, _⟩ := hm
+    unfold rollbackTo
+    have hfr : m.frontierId = lastIdFrom (lastId conf) (flat m.pooled) := by rw [frontierId_eq, hb]
+    have hfh : (m.frontierId).2 = (lastId conf).2 + (flat m.pooled).length := by
+      rw [hfr]; exact linked_last_height _ _ hl hh
+    have hsplit : flat m.pooled = flat (m.pooled.take j) ++ flat (m.pooled.drop j) := by
+      rw [← flat_append, List.take_append_drop]
+    have hlt : Linked (lastId conf) (flat (m.pooled.take j)) := by
+      have := hl; rw [hsplit, linked_append] at this; exact this.1
+    have hht : HeightsOK (flat (m.pooled.take j)) := by
+      have := hh; rw [hsplit] at this; exact (heightsOK_append.mp this).1
+    have hth : (lastIdFrom (lastId conf) (flat (m.pooled.take j))).2 = (lastId conf).2 + (flat (m.pooled.take j)).length :=
+      linked_last_height _ _ hlt hht
+    by_cases hfe : m.frontierId = lastIdFrom (lastId conf) (flat (m.pooled.take j))
+    · have : j = m.pooled.length := by
+        apply Classical.byContradiction
+        intro hne
+        have := flat_take_lt (ts := m.pooled) (j := j) (by omega)
+        have h2 : (m.frontierId).2 = (lastIdFrom (lastId conf) (flat (m.pooled.take j))).2 := by rw [hfe]
+        omega
+      simp only [hfe, if_true]
+      exact ⟨m, rfl, by rw [this, List.take_length], rfl⟩
+    · simp only [hfe, if_false]
+      have hjlt : j < m.pooled.length := by
+        apply Classical.byContradiction
+        intro hn
+        have : j = m.pooled.length := by omega
+        apply hfe
+        rw [hfr, this, List.take_length]
+      have hne : m.pooled ≠ [] := by intro he; simp [he] at hjlt
+      obtain ⟨tl, htl⟩ : ∃ tl, m.pooled.getLast? = some tl := ⟨m.pooled.getLast hne, List.getLast?_eq_some_getLast hne⟩
+      have hns : lastId m.base ≠ m.frontierId := by
+        intro he
+        have : (lastId m.base).2 = (m.frontierId).2 := by rw [he]
+        rw [hb] at this
+        have := flat_length_pos hne
+        omega
+      have hpop : m.pop = some ({ m with pooled := m.pooled.dropLast, patches := m.patches.filter (fun i => !(tl.commits.map Blk.id).contains i) } : Mgr) := by
+        simp [Mgr.pop, hns, htl]
+      simp only [hpop]
+      have hok := pop_ok_aux hm' htl
+      have hlen : m.pooled.dropLast.length = m.pooled.length - 1 := by simp
+      obtain ⟨m2, h1, h2, h3⟩ := rollbackTo_reaches fuel _ j hok (by simp only [hlen]; omega) (by simp only [hlen]; omega)
+      have htk : m.pooled.dropLast.take j = m.pooled.take j := by
+        rw [List.dropLast_eq_take, List.take_take]
+        congr 1; omega
+      simp only [htk] at h1 h2
+      exact ⟨m2, h1, h2, h3⟩
+
+/-- walking up from the first commit of a stored transaction finds the block that carries it -/
+theorem headAt_spec (view : List Blk) (hl : Linked zeroId view) (hh : HeightsOK view) :
+    ∀ (ds A : List Blk) (hd : Blk) (B : List Blk) (fuel : Nat), view = A ++ ds ++ [hd] ++ B →
+      (∀ d ∈ ds, isContractSend d.btype = true) → isContractSend hd.btype = false → ds.length < fuel →
+      headAt view fuel (A.length + 1) = some hd
+  | [], A, hd, B, fuel, hv, _, hhd, hf => by
+    obtain ⟨f, rfl⟩ : ∃ f, fuel = f + 1 := ⟨fuel - 1, by simp at hf; omega⟩
+    have hi : A.length < view.length := by rw [hv]; simp
+    have hb := byHeight_chain view hl hh A.length hi
+    have hget : view[A.length] = hd := by simp [hv]
+    simp only [headAt, hb, hget, hhd, Bool.false_eq_true, if_false]
+  | d :: ds, A, hd, B, fuel, hv, hcs, hhd, hf => by
+    obtain ⟨f, rfl⟩ : ∃ f, fuel = f + 1 := ⟨fuel - 1, by simp at hf; omega⟩
+    have hi : A.length < view.length := by rw [hv]; simp
+    have hb := byHeight_chain view hl hh A.length hi
+    have hget : view[A.length] = d := by simp [hv]
+    have ih := headAt_spec view hl hh ds (A ++ [d]) hd B f (by rw [hv]; simp) (fun x hx => hcs x (by simp [hx])) hhd
+      (by simp at hf; omega)
+    simp only [headAt, hb, hget, hcs d (by simp), if_true]
+    simpa using ih
+
+theorem byHeight_at_split (view : List Blk) (hl : Linked zeroId view) (hh : HeightsOK view) (A : List Blk) (hd : Blk)
+    (B : List Blk) (hv : view = A ++ [hd] ++ B) : byHeight view (A.length + 1) = some hd := by
+  have hi : A.length < view.length := by rw [hv]; simp
+  have hb := byHeight_chain view hl hh A.length hi
+  have hget : view[A.length] = hd := by simp [hv]
+  rw [hb, hget]
+
+/-- a transaction with descendants: the head lies as many heights above `Previous()` as it has commits -/
+theorem head_height {t : Tx} (ht : TxWF t) : t.head.height = t.prev.2 + t.commits.length := by
+  have := linked_last_height t.commits t.prev ht.1 ht.2.1
+  rw [lastIdFrom_commits] at this
+  simpa [Tx.id, Blk.id] using this
 
 /-- the address loop of `rebuild` touches the visited addresses only, each once -/
 theorem rebuildLoop_apply : ∀ (order : List Addr) (s : PoolSt), order.Nodup → ∀ b,
